@@ -136,6 +136,27 @@ theorem macro_call_returns_safe_text (fuel fid idx : Nat) (args : List V) (σ σ
             exact ⟨rfl, ⟨_, rfl⟩, by omega⟩
           · cases h
 
+/-- **An imported macro is the same macro**: in a state whose current context is `fr`, importing
+    the macro with table index `idx` under its own name leaves exactly the state that defining it
+    locally leaves — the name is bound to the same closure value (same defining context, same body,
+    same guard), so every later call goes through the same `callFunc` / `callMacro`.  Under an alias
+    only the name differs. -/
+theorem imported_macro_is_the_local_macro (fuel idx : Nat) (σ : ES) (fr : Frame) (rest : List Frame)
+    (hσ : σ.frames = fr :: rest) :
+    (execNode T cfg g (fuel + 1) (.tagImport [((σ.cs.macros[idx]!).name, idx)])).run σ =
+      (execNode T cfg g (fuel + 1) (.tagMacro idx)).run σ ∧
+    ∀ alias, (execNode T cfg g (fuel + 1) (.tagImport [(alias, idx)])).run σ =
+      .ok () { σ with frames := { fr with priv := fr.priv.set alias (.closure fr.id idx true) } :: rest } := by
+  obtain ⟨frames, a, b, c, d, e, f⟩ := σ
+  simp only at hσ
+  subst hσ
+  constructor
+  · simp [execNode, cur, modifyCur, EStateM.run, bind, EStateM.bind, get, getThe, MonadStateOf.get, EStateM.get, pure, EStateM.pure,
+      modify, modifyGet, MonadStateOf.modifyGet, EStateM.modifyGet]
+  · intro alias
+    simp [execNode, cur, modifyCur, EStateM.run, bind, EStateM.bind, get, getThe, MonadStateOf.get, EStateM.get, pure, EStateM.pure,
+      modify, modifyGet, MonadStateOf.modifyGet, EStateM.modifyGet]
+
 /-- the depth limit is the code's constant -/
 theorem gen_maxMacroDepth : Gen.maxMacroDepth = maxMacroDepth := by decide
 
